@@ -67,4 +67,90 @@ static void c12_setup(const ref_cfg_t *c, enum htp_decoder_ctx_t ctx, unsigned c
     RF_PROCESS_INVALID == HTP_URL_DECODE_PROCESS_INVALID && RF_IGNORE == HTP_UNWANTED_IGNORE)
 #endif
 
+
+/* ================= contract units (kind='contract'): in-place writers on an inline bstr of FIXED capacity WCAP ================= */
+#define C12_WBSTR(b) (__CPROVER_is_fresh((b), sizeof(bstr) + WCAP) && (b)->realptr == NULL && (b)->size == WCAP && (b)->len <= WCAP)
+#define C12_WDATA(b) __CPROVER_object_upto((unsigned char *) (b) + sizeof(bstr), WCAP)
+#define C12_TX(tx) (__CPROVER_is_fresh((tx), sizeof(htp_tx_t)) && __CPROVER_is_fresh((tx)->cfg, sizeof(htp_cfg_t)))
+
+/* RFC 3986 5.2.4 normaliser: memory safety, in-place discipline (loop invariants), no growth, frame, termination */
+void contract_htp_normalize_uri_path_inplace(bstr *s)
+__CPROVER_requires(s == NULL || C12_WBSTR(s))
+__CPROVER_assigns(s != NULL: s->len, C12_WDATA(s))
+__CPROVER_ensures(s != NULL ==> (s->len <= __CPROVER_old(s->len) && s->size == WCAP && s->realptr == NULL))
+;
+
+/* leaf callees of the decoders, replaced in the loop-carrying units (their own units: x2c, c12_u_decode_realmap) */
+unsigned char contract_x2c(unsigned char *what)
+__CPROVER_requires(__CPROVER_r_ok(what, 2))
+__CPROVER_assigns()
+__CPROVER_ensures(1)
+;
+
+uint8_t contract_decode_u_encoding_path(htp_cfg_t *cfg, htp_tx_t *tx, unsigned char *data)
+__CPROVER_requires(__CPROVER_r_ok(data, 4) && __CPROVER_rw_ok(tx, sizeof(htp_tx_t)) && __CPROVER_r_ok(cfg, sizeof(htp_cfg_t)))
+__CPROVER_assigns(tx->flags, tx->response_status_expected_number)
+__CPROVER_ensures((tx->flags & __CPROVER_old(tx->flags)) == __CPROVER_old(tx->flags))
+__CPROVER_ensures(tx->response_status_expected_number == __CPROVER_old(tx->response_status_expected_number) ||
+                  (cfg->decoder_cfgs[HTP_DECODER_URL_PATH].u_encoding_unwanted != HTP_UNWANTED_IGNORE &&
+                   tx->response_status_expected_number == (int) cfg->decoder_cfgs[HTP_DECODER_URL_PATH].u_encoding_unwanted))
+;
+
+uint8_t contract_decode_u_encoding_params(htp_cfg_t *cfg, enum htp_decoder_ctx_t ctx, unsigned char *data, uint64_t *flags)
+__CPROVER_requires(__CPROVER_r_ok(data, 4) && __CPROVER_rw_ok(flags, sizeof(*flags)) && __CPROVER_r_ok(cfg, sizeof(htp_cfg_t)))
+__CPROVER_assigns(*flags)
+__CPROVER_ensures((*flags & __CPROVER_old(*flags)) == __CPROVER_old(*flags))
+;
+
+uint8_t contract_bestfit_codepoint(htp_cfg_t *cfg, enum htp_decoder_ctx_t ctx, uint32_t codepoint)
+__CPROVER_requires(__CPROVER_r_ok(cfg, sizeof(htp_cfg_t)))
+__CPROVER_assigns()
+__CPROVER_ensures(1)
+;
+
+/* path decoder */
+htp_status_t contract_htp_decode_path_inplace(htp_tx_t *tx, bstr *path)
+__CPROVER_requires(C12_TX(tx) && C12_DCFG_LEGAL(&tx->cfg->decoder_cfgs[HTP_DECODER_URL_PATH]))
+__CPROVER_requires(path == NULL || C12_WBSTR(path))
+__CPROVER_requires(g12_flags0 == tx->flags && g12_status0 == tx->response_status_expected_number)
+__CPROVER_assigns(tx->flags, tx->response_status_expected_number; path != NULL: path->len, C12_WDATA(path))
+__CPROVER_ensures(path == NULL ? __CPROVER_return_value == HTP_ERROR : __CPROVER_return_value == HTP_OK)
+__CPROVER_ensures(path != NULL ==> (path->len <= __CPROVER_old(path->len) && path->size == WCAP && path->realptr == NULL))
+__CPROVER_ensures(C12_FLAGS_GROW(tx->flags))
+__CPROVER_ensures(C12_STATUS_OK(tx->response_status_expected_number))
+;
+
+/* generic decoder */
+htp_status_t contract_htp_urldecode_inplace_ex(htp_cfg_t *cfg, enum htp_decoder_ctx_t ctx, bstr *input, uint64_t *flags, int *expected_status_code)
+__CPROVER_requires(__CPROVER_is_fresh(cfg, sizeof(htp_cfg_t)) && (ctx == HTP_DECODER_DEFAULTS || ctx == HTP_DECODER_URLENCODED || ctx == HTP_DECODER_URL_PATH))
+__CPROVER_requires(C12_DCFG_LEGAL(&cfg->decoder_cfgs[ctx]))
+__CPROVER_requires(__CPROVER_is_fresh(flags, sizeof(*flags)) && __CPROVER_is_fresh(expected_status_code, sizeof(*expected_status_code)))
+__CPROVER_requires(input == NULL || C12_WBSTR(input))
+__CPROVER_requires(g12_flags0 == *flags && g12_status0 == *expected_status_code)
+__CPROVER_assigns(*flags, *expected_status_code; input != NULL: input->len, C12_WDATA(input))
+__CPROVER_ensures(input == NULL ? __CPROVER_return_value == HTP_ERROR : __CPROVER_return_value == HTP_OK)
+__CPROVER_ensures(input != NULL ==> (input->len <= __CPROVER_old(input->len) && input->size == WCAP && input->realptr == NULL))
+__CPROVER_ensures(C12_FLAGS_GROW(*flags))
+__CPROVER_ensures(C12_STATUS_OK(*expected_status_code))
+;
+
+/* UTF-8 stage */
+void contract_htp_utf8_decode_path_inplace(htp_cfg_t *cfg, htp_tx_t *tx, bstr *path)
+__CPROVER_requires(__CPROVER_is_fresh(cfg, sizeof(htp_cfg_t)) && __CPROVER_is_fresh(tx, sizeof(htp_tx_t)))
+__CPROVER_requires(C12_DCFG_LEGAL(&cfg->decoder_cfgs[HTP_DECODER_URL_PATH]))
+__CPROVER_requires(path == NULL || C12_WBSTR(path))
+__CPROVER_requires(g12_flags0 == tx->flags && g12_status0 == tx->response_status_expected_number)
+__CPROVER_assigns(tx->flags, tx->response_status_expected_number; path != NULL: path->len, C12_WDATA(path))
+__CPROVER_ensures(path != NULL ==> (path->len <= __CPROVER_old(path->len) && path->size == WCAP && path->realptr == NULL))
+__CPROVER_ensures(C12_FLAGS_GROW(tx->flags))
+__CPROVER_ensures(C12_STATUS_OK(tx->response_status_expected_number))
+;
+
+void contract_htp_utf8_validate_path(htp_tx_t *tx, bstr *path)
+__CPROVER_requires(__CPROVER_is_fresh(tx, sizeof(htp_tx_t)) && C12_WBSTR(path))
+__CPROVER_requires(g12_flags0 == tx->flags)
+__CPROVER_assigns(tx->flags)
+__CPROVER_ensures(C12_FLAGS_GROW(tx->flags))
+;
+
 #endif
